@@ -1,13 +1,16 @@
 #!/bin/sh
-# evaluate every seeded change found under /tmp/mut/<id>/out/m<k> (development aid); results in /tmp/mut/eval_results
+# evaluate every seeded change found under /tmp/mut/<id>/$OUTSUB/m<k> (development aid); results in /tmp/mut/eval_results
+# env: PROPS (ids), OUTSUB (out|out2), PREFIX (result file prefix), ONLY_MISSING=1, EVAL_TREE, EVAL_BUILD
 cd "$(dirname "$0")/.." || exit 2
 mkdir -p /tmp/mut/eval_results
+OUTSUB=${OUTSUB:-out}
 for p in ${PROPS:-C01 C02 C03 C08 C09 C10 C12 C13 C14 C16 C17 C18 C19 C20}; do
   for k in 1 2 3; do
-    d=/tmp/mut/$p/out/m$k
+    d=/tmp/mut/$p/$OUTSUB/m$k
+    r=/tmp/mut/eval_results/${PREFIX}$p-m$k.json
     [ -f "$d/patch.diff" ] || continue
-    [ -n "$ONLY_MISSING" ] && [ -s "/tmp/mut/eval_results/$p-m$k.json" ] && continue
-    timeout 3000 python3 tools/evalmut.py "$p" "$d" > "/tmp/mut/eval_results/$p-m$k.json" 2>&1
-    echo "$p m$k caught=$(grep -c '"caught": true' "/tmp/mut/eval_results/$p-m$k.json")"
+    [ -n "$ONLY_MISSING" ] && [ -s "$r" ] && grep -q '"caught"' "$r" && continue
+    timeout 3000 python3 tools/evalmut.py "$p" "$d" > "$r" 2>&1
+    echo "${PREFIX}$p m$k caught=$(grep -c '"caught": true' "$r")"
   done
 done
